@@ -1,7 +1,8 @@
 ----------------------------- MODULE MC_LimitBid -----------------------------
 (* Bounded model of the limit-bid book with attacker-chosen message contents. *)
 EXTENDS LimitBid, TLC, Json
-CONSTANTS Bidders, DepAmts, Prems, MaxDeps, Fund, Emit
+CONSTANTS Bidders, DepAmts, Prems, MaxDeps, Fund, Emit,
+          FillDebt   \* > 0: an abstract Dutch auction with that remaining debt may fill any deposit (design-level run, Emit = FALSE)
 
 C == [wfn |-> 1, wfd |-> 10, cfn |-> 1, cfd |-> 5]
 VARIABLES st, ndep
@@ -37,10 +38,16 @@ DoWithdraw == \E u \in Bidders, prem \in Prems :
                   /\ Step("Withdraw", [u |-> u, coll |-> 1, debt |-> 2, prem |-> prem, amt |-> amt, denom |-> denom],
                           Withdraw(st, C, u, 1, 2, prem, amt, denom).st)
                   /\ UNCHANGED ndep
-Next == DoDeposit \/ DoBadDeposit \/ DoCancel \/ DoWithdraw
+(* automatic fill of one deposit: below, exactly at and above the auction's remaining debt (DepAmts straddle FillDebt) *)
+DoFill == FillDebt > 0 /\ ~Emit /\ \E i \in 1..Len(st.dep) :
+            LET x == IF st.dep[i].amt <= FillDebt THEN st.dep[i].amt ELSE FillDebt
+                used == [j \in 1..Len(st.dep) |-> IF j = i THEN x ELSE 0]
+            IN x > 0 /\ FillOk(st, used) /\ st' = Fill(st, used) /\ UNCHANGED ndep
+Next == DoDeposit \/ DoBadDeposit \/ DoCancel \/ DoWithdraw \/ DoFill
 Spec == Init /\ [][Next]_vars
 
 InvTotal == TotalMatches(st)
+InvBookClean == \A i \in 1..Len(st.dep) : st.dep[i].amt > 0        \* no zero / negative record survives a step
 InvNonNeg == \A i \in 1..Len(st.dep) : st.dep[i].amt >= 0
 InvCustody == CustodyHolds(st)
 =============================================================================
